@@ -20,6 +20,8 @@ pub struct ExecOpts {
     pub open_findings: Vec<KnownFinding>,
     /// collect a human-readable trace of the run (samples in evidence files)
     pub trace: bool,
+    /// send each distinct module only once per process (workers); off in the coordinator
+    pub code_dedup: bool,
 }
 
 #[derive(serde::Serialize, serde::Deserialize, Clone, Debug)]
@@ -505,15 +507,7 @@ fn execute_history(run: &Run, opts: &ExecOpts) -> Outcome {
     out
 }
 
-fn note_build(cx: &mut Ctx, shared: &Shared, t: &Triple) {
-    if cx.opts.collect_codes {
-        if let Some(c) = &t.code {
-            let h = fnv64(c.as_bytes());
-            if !cx.out.codes.iter().any(|(x, _)| *x == h) {
-                cx.out.codes.push((h, c.clone()));
-            }
-        }
-    }
+fn note_build(cx: &mut Ctx, shared: &Shared, _t: &Triple) {
     let st = shared.borrow();
     if !stale_resolutions(&st).is_empty() {
         cx.out.stats.probe("build_with_stale_resolution_candidate");
@@ -527,9 +521,13 @@ fn note_build(cx: &mut Ctx, shared: &Shared, t: &Triple) {
 fn note_fs_built(cx: &mut Ctx, fs: &Fs, t: &Triple) {
     if cx.opts.collect_codes {
         if let Some(c) = &t.code {
-            let h = fnv64(c.as_bytes());
-            if !cx.out.codes.iter().any(|(x, _)| *x == h) {
-                cx.out.codes.push((h, c.clone()));
+            let settings = &cx.run.project.settings;
+            let expected_keys = fs.get(&cx.run.project.entry).and_then(|src| crate::edits::build_parsers_keys(&cx.run.project.entry, src));
+            let mut h = fnv64(c.as_bytes());
+            h = fnv64_more(h, serde_json::to_string(&(&expected_keys, settings)).unwrap().as_bytes());
+            if !cx.out.codes.iter().any(|x| x.hash == h) && (!cx.opts.code_dedup || crate::exec::first_time_in_this_process(h)) {
+                let alias_cycle = crate::edits::noncontractive_alias_cycle(fs).is_some();
+                cx.out.codes.push(CodeItem { hash: h, code: c.clone(), expected_keys, string_formats: settings.string_formats.clone(), number_formats: settings.number_formats.clone(), alias_cycle });
             }
         }
     }
@@ -660,4 +658,13 @@ fn execute_c10(run: &Run, opts: &ExecOpts) -> Outcome {
     cx.out.state_hashes.push(fs_hash(&fs));
     cx.out.log_hash = cx.log;
     cx.out
+}
+
+/// Workers send every distinct module once per process (the coordinator de-duplicates globally).
+pub fn first_time_in_this_process(h: u64) -> bool {
+    use std::sync::Mutex;
+    static SEEN: Mutex<Option<BTreeSet<u64>>> = Mutex::new(None);
+    let mut g = SEEN.lock().unwrap();
+    let set = g.get_or_insert_with(BTreeSet::new);
+    set.insert(h)
 }
